@@ -23,6 +23,9 @@ def configs(tier):
                 out.append(dict(net="pinn", eq_type=eq_type, dim_x=dim_x, n_out=n_out, tf=tf, hidden=1))
         out.append(dict(net="pinn_shared", eq_type=eq_type, dim_x=dim_x, n_out=3, tf="both", hidden=1))
         out.append(dict(net="pinn_shared", eq_type=eq_type, dim_x=dim_x, n_out=3, tf="both", hidden=1, int_slice=True))
+        # an output transform that couples the components of the common network (component c reads component c-1): the
+        # restriction to the wrapper's own slice comes AFTER the transform
+        out.append(dict(net="pinn_shared", eq_type=eq_type, dim_x=dim_x, n_out=3, tf="coupled", hidden=1, int_slice=(dim_x == 1)))
     if tier == "thorough":
         out.append(dict(net="pinn", eq_type="nonstatio_PDE", dim_x=2, n_out=2, tf="both", hidden=2))
     for eq_type, d in (("statio_PDE", 1), ("statio_PDE", 2), ("nonstatio_PDE", 2)) + ((("statio_PDE", 3), ("nonstatio_PDE", 3)) if tier == "thorough" else (("nonstatio_PDE", 3),)):
@@ -91,6 +94,9 @@ def run(cfg, R):
         if tf == "both":
             it = lambda i, p: i * p.eq_params["alpha"] + 0.5
             ot = lambda i, o, p: o * p.eq_params["beta"] + i[0]
+        elif tf == "coupled":
+            it = lambda i, p: i * p.eq_params["alpha"] + 0.5
+            ot = lambda i, o, p: o * p.eq_params["beta"] + jnp.roll(o, 1) + i[0]
         else:
             it = ot = None
         int_slice = cfg.get("int_slice", False)
@@ -119,15 +125,18 @@ def run(cfg, R):
         def oracle(A, variant=None):
             p, t_, x_ = A
             inputs = {"ODE": [t_[0]], "statio_PDE": list(x_), "nonstatio_PDE": [t_[0]] + list(x_)}[eq_type]
-            if tf == "both":
+            if tf in ("both", "coupled"):
                 al, be = p.eq_params["alpha"][()], p.eq_params["beta"][()]
                 zin = [add(mul(i, al), const(Fraction(1, 2), "Real")) for i in inputs]
             else:
                 zin = inputs
             o = mlp_fwd(layer_list(p.nn_params), zin)
-            if tf == "both":
+            if tf in ("both", "coupled"):
                 first = inputs[0] if variant != "transformed_in" else zin[0]
-                o = [add(mul(v, be), first) for v in o]
+                raw = list(o)
+                o = [add(mul(v, be), first) for v in raw]
+                if tf == "coupled":
+                    o = [add(v, raw[(c - 1) % len(raw)]) for c, v in enumerate(o)]
             return o
 
         def goals(A, O, variant=None):
@@ -149,7 +158,7 @@ def run(cfg, R):
 
         def twins(A, O):
             tw = []
-            if tf == "both":
+            if tf in ("both", "coupled"):
                 tw += [g for g in goals(A, O, variant="transformed_in") if "output_transform" in g[0]][:1]
             outs, extra = O
             tw.append(("network 0 output == 0", tm.conj([eq(a, const(0, "Real")) for a in outs[0].flat])))
